@@ -252,7 +252,7 @@ func ruleC06_1(c *Ctx) {
 		// (d) map updates
 		var ups []FieldWrite
 		for _, w := range p.fieldWrites(f) {
-			if w.Kind == "mapupdate" && outermost(w.Fn) == fn {
+			if w.Kind == "mapupdate" && homeFn(w.Fn) == fn {
 				ups = append(ups, w)
 			}
 		}
@@ -617,7 +617,7 @@ func ruleC06_2(c *Ctx) {
 		// Body[slot] = frag of this iteration, after the element loop
 		var filed bool
 		for _, w := range p.fieldWrites(body) {
-			if w.Kind != "mapupdate" || outermost(w.Fn) != fn {
+			if w.Kind != "mapupdate" || homeFn(w.Fn) != fn {
 				continue
 			}
 			_, isGet := p.isCallTo(strip(w.Val), fragGet)
@@ -693,49 +693,37 @@ func ruleC06_4(c *Ctx) {
 		return
 	}
 	c.examined(len(ca.Blocks))
-	wrong, _ := p.ConstInt(pkgCodec, "ReqWrongArgumentsNumber")
 	nInf, _ := p.ConstInt(pkgCodec, "NargsInf")
 	nEven, _ := p.ConstInt(pkgCodec, "NargsEvenInf")
-	nParam := ca.Params[1]
-	// collect the rejecting conditions per arity class
-	rej := map[int64][]string{}
-	for _, b := range ca.Blocks {
-		ifi, ok := b.Instrs[len(b.Instrs)-1].(*ssa.If)
-		if !ok {
-			continue
-		}
-		// does the true edge return ReqWrongArgumentsNumber immediately?
-		tb := b.Succs[0]
-		ret, ok := tb.Instrs[len(tb.Instrs)-1].(*ssa.Return)
-		if !ok {
-			continue
-		}
-		if k, isK := constInt(results(ret)[0]); !isK || k != wrong {
-			continue
-		}
-		// which arity class are we in?
-		for _, g := range append(guardsAt(b), Guard{}) {
-			if g.Cond == nil {
-				continue
-			}
-			x, op, y, ok := cmpGuard(g)
-			k, isK := constInt(y)
-			if ok && op == token.EQL && isK && (k == nInf || k == nEven) {
-				_ = x
-				rej[k] = append(rej[k], strings.ReplaceAll(expr(ifi.Cond), expr(nParam), "n"))
-			}
-		}
+	byClass, _, complete := c.arityClasses(ca)
+	if !complete {
+		c.undecided("checkArgs: accept paths", p.pos(ca.Pos()), "path enumeration incomplete")
+		return
 	}
-	has := func(k int64, cond string) bool {
-		for _, s := range rej[k] {
-			if s == cond {
-				return true
+	n := expr(ssa.Value(ca.Params[1]))
+	check := func(class int64, name, want string, alts [][]string, why string) {
+		cases := byClass[class]
+		if len(cases) == 0 {
+			c.bad("checkArgs: "+name, p.pos(ca.Pos()), "no path accepts a command of this arity class: every "+name+" request is rejected")
+			return
+		}
+		okAll := true
+		worst := ""
+		for _, ac := range cases {
+			for _, alt := range alts {
+				if !hasFact(ac.facts, alt...) {
+					okAll = false
+					worst = describeFacts(ac.facts)
+				}
 			}
 		}
-		return false
+		c.check(okAll, "checkArgs: "+name, p.pos(ca.Pos()), want+" on all "+fmt.Sprint(len(cases))+" accepting path(s)", why+" (an accepting path holds only: "+worst+")")
 	}
-	c.check(has(nInf, "(n < 1)") || has(nInf, "(n <= 0)"), "checkArgs: NargsInf rejects n < 1", p.pos(ca.Pos()), "n < 1 ⇒ wrong number of arguments",
-		"commands with arity class NargsInf (MGET, DEL) are not rejected when they carry no key: "+strings.Join(rej[nInf], ", "))
-	c.check((has(nEven, "(n < 2)") || has(nEven, "(n <= 1)")) && (has(nEven, "((n % 2) == 1)") || has(nEven, "((n % 2) != 0)")), "checkArgs: NargsEvenInf rejects n < 2 and odd n", p.pos(ca.Pos()), "n < 2 || n odd ⇒ wrong number of arguments",
-		"MSET is not rejected for fewer than two or an odd number of arguments (conditions found: "+strings.Join(rej[nEven], ", ")+"): Frag2 would read a value that is not there")
+	check(nInf, "NargsInf rejects n < 1", "n >= 1",
+		[][]string{{"!(" + n + " < 1)", "(" + n + " >= 1)", "(" + n + " > 0)", "!(" + n + " <= 0)"}},
+		"commands with arity class NargsInf (MGET, DEL) are accepted without a key")
+	check(nEven, "NargsEvenInf rejects n < 2 and odd n", "n >= 2 and n even",
+		[][]string{{"!(" + n + " < 2)", "(" + n + " >= 2)", "(" + n + " > 1)", "!(" + n + " <= 1)"},
+			{"!((" + n + " % 2) == 1)", "((" + n + " % 2) != 1)", "((" + n + " % 2) == 0)", "!((" + n + " % 2) != 0)"}},
+		"MSET is accepted with fewer than two or an odd number of arguments: Frag2 would read a value that is not there")
 }
